@@ -19,8 +19,8 @@ INFO = {
     "(regex model; acceptance and results).  (B) a parser with ws=' \\n\\t' against the same grammar with a LAYOUT rule "
     "matching exactly runs of those characters (string terminals): equal results, node positions, terminal "
     "layout_content and error positions; LR and GLR.",
-    "bounds": {"quick": {"A": "N=5, 8 grammars", "A-comments": "N=4, 2 grammars, input alphabet {a b / * space newline x}", "B": "N=4, 6 grammars"},
-               "thorough": {"A": "N=6", "A-comments": "N=5", "B": "N=5, 14 grammars"}},
+    "bounds": {"quick": {"A": "N=5, 8 grammars", "A-comments": "N=4, 2 grammars, input alphabet {a b / * space newline x}; the reference comment stripper models the docs' comment idiom token by token and was compared natively with the real parser on every input of length <= 7 over {a / * space newline x}: equal up to length 5, from length 6 on the idiom's LALR layout parser reports a lexical ambiguity for a closing */ followed by // (NotComment is a look-ahead of the merged state) - outside", "B": "N=4, 6 grammars"},
+               "thorough": {"A": "N=6", "A-comments": "N=5, 4 grammars, alphabet {a b / * space newline x ( ) +}", "B": "N=5, 14 grammars"}},
     "outside": "inputs longer than N; multi-character terminals whose boundaries depend on layout; custom layout_actions",
     "assumptions": ["get_context stubbed; realize-atomic marks", "regex model for WS / LineComment / NotComment (ASCII input there)"],
 }
@@ -65,8 +65,8 @@ def cases(tier, seed):
     for nm in (["leftrec", "nullable-mid"] if q else ["leftrec", "nullable-mid", "expr", "paren"]):
         for mode in ("lr", "glr"):
             c = _case("AC", nm, mode, 4 if q else 5)
-            if q:
-                c["params"]["alphabet"] = "ab/* \nx"  # 'x' stands for every character that is neither token nor comment syntax
+            # 'x' stands for every character that is neither token nor comment syntax
+            c["params"]["alphabet"] = "ab/* \nx" if q else "ab/* \nx()+"
             out.append(c)
     names = B_SHAPES if q else B_SHAPES + ["midrec", "list-sep", "two-nullables", "opt-list", "hidden-left", "palindrome", "rightrec", "unit-chain"]
     for nm in names:
@@ -101,9 +101,65 @@ def _isspace(c):
     return c in " \t\n\r\x0b\x0c\x1c\x1d\x1e\x1f"
 
 
+def _notcomment_end(w, n, k):
+    """End of the greedy match of NotComment = /((\\*[^\\/])|[^\\s*\\/]|\\/[^\\*])+/ at k (k itself when it does not match)."""
+    while k < n:
+        c = w[k]
+        if c == "*":
+            if k + 1 < n and w[k + 1] != "/":
+                k += 2
+            else:
+                break
+        elif c == "/":
+            if k + 1 < n and w[k + 1] != "*":
+                k += 2
+            else:
+                break
+        elif _isspace(c):
+            break
+        else:
+            k += 1
+    return k
+
+
+def _line_end(w, n, k):
+    while k < n and w[k] != "\n":
+        k += 1
+    return k
+
+
+def _block_end(w, n, j):
+    """Position after the block comment whose body starts at j, as the comment idiom of the docs (LAYOUT_CMT) tokenises
+    it, or None when that layout parse fails.  In the body the string terminals '*/' and '/*' come first; otherwise the
+    longest of WS, LineComment and NotComment wins (a tie is a lexical ambiguity, i.e. a failure)."""
+    while True:
+        if j >= n:
+            return None
+        if w[j] == "*" and j + 1 < n and w[j + 1] == "/":
+            return j + 2
+        if w[j] == "/" and j + 1 < n and w[j + 1] == "*":
+            j = _block_end(w, n, j + 2)
+            if j is None:
+                return None
+            continue
+        if _isspace(w[j]):
+            while j < n and _isspace(w[j]):
+                j += 1
+            continue
+        e_nc = _notcomment_end(w, n, j)
+        e_lc = _line_end(w, n, j + 2) if (w[j] == "/" and j + 1 < n and w[j + 1] == "/") else j
+        if e_nc == j and e_lc == j:
+            return None
+        if e_nc == e_lc:
+            return None
+        j = max(e_nc, e_lc)
+
+
 def strip_comments(w, n):
-    """Reference: remove whitespace, // line comments and (nested) /* */ block comments.  Returns
-    (stripped chars, ok) - ok False when an unterminated block comment is met (not layout)."""
+    """Reference: remove what the LAYOUT rule of the docs' comment idiom (LAYOUT_CMT: whitespace, // line comments,
+    nested /* */ block comments whose body is tokenised by the NotComment regex) takes as layout.  Returns
+    (stripped chars, ok) - ok False when a layout parse that has begun a block comment fails (unterminated comment; a
+    body the idiom's NotComment regex cannot tokenise up to the closing mark, e.g. /***/)."""
     out = []
     i = 0
     while i < n:
@@ -111,22 +167,10 @@ def strip_comments(w, n):
         if _isspace(c):
             i += 1
         elif c == "/" and i + 1 < n and w[i + 1] == "/":
-            i += 2
-            while i < n and w[i] != "\n":
-                i += 1
+            i = _line_end(w, n, i + 2)
         elif c == "/" and i + 1 < n and w[i + 1] == "*":
-            depth = 1
-            j = i + 2
-            while j < n and depth:
-                if w[j] == "*" and j + 1 < n and w[j + 1] == "/":
-                    depth -= 1
-                    j += 2
-                elif w[j] == "/" and j + 1 < n and w[j + 1] == "*":
-                    depth += 1
-                    j += 2
-                else:
-                    j += 1
-            if depth:
+            j = _block_end(w, n, i + 2)
+            if j is None:
                 return out, False
             i = j
         else:
@@ -242,7 +286,7 @@ def build(params, symbolic):
         a = outcome(p1, w, n, WSCH, False)
         if not ok:
             if a[0] != "err":
-                return "unterminated block comment accepted"
+                return "input accepted although the layout parse of a block comment fails"
             bump(stats, "unterminated")
             return True
         b = outcome(p2, sw, len(sw), WSCH, False)
